@@ -17,7 +17,7 @@ PROPS = {
         rule="exhaustive shapes (quick: 1-4 axes x lengths 1..3 and 1-3 axes x 1..4; thorough: 1-5 x 1..4, 1-4 x 5, 1-3 x 1..5) x all axes x all positions, "
              "each iterator driven size+5 calls with len() sampled before every call, plus out-of-range axis {d, d+1, 2^64-1}, position = length / 2^64-1, "
              "wrong-length and out-of-range indices, plus random larger shapes; non-trivial = distinct request on an array with >= 2 axes "
-             "(or a view with >= 1 remaining axis, or an in-range get)",
+             "(or a view with >= 1 remaining axis, or an in-range get) 200 (thorough 2000) `hist.arr` call histories on one array object with 1-6 axes (get, set through IndexMut / get_mut, axis views, axis iterators, index iterators, axis sums, replacement by an axis sum, clones).",
         exhaustive=True,
         assumptions=["element type u64 ramp data for get/iter histories; f64 prime data for Array::sum (exact in binary64)"],
     ),
@@ -27,7 +27,7 @@ PROPS = {
         nontrivial=r"^fold-",
         rule="all shapes 1-4 axes x lengths 1..4 (+1-2 axes x 5..7, + random; thorough: all 1-4 x 1..7) with random dyadic non-antisymmetric data "
              "(exact in binary64), all four fills, NaN/inf inputs in 1/7 of the shapes; fold(fold x) and fold(reverse x) evaluated on the implementation; "
-             "non-trivial = distinct request (every fold of a shape with >= 1 element exercises the three-way match)",
+             "non-trivial = distinct request (every fold of a shape with >= 1 element exercises the three-way match) 60 (thorough 600) `hist.scs` call histories; size sweeps (every 1-axis length up to 64 and every third up to 300, thorough all up to 700; n x 2 / 2 x n / 3 x n; 5-8 short axes).",
         exhaustive=True,
         assumptions=["values are multiples of 1/4 below 2^9 so that binary64 sums and halves are exact and compared exactly"],
     ),
@@ -38,7 +38,7 @@ PROPS = {
         nontrivial=r"^(marg-(sorted|unsorted|stepwise)-[1-9]of[2-9]|err-)",
         rule="all shapes 1-3 axes x lengths 1..4 and 4 axes x 1..2 (thorough: 1-4 x 1..4, 5 x 1..3, 400 random up to 5 axes x 1..6) x all subsets of axes x all orders, "
              "odd integer data with distinct gaps (exact sums), one-at-a-time removal on the implementation, error streams (duplicate, out of range, 2^64-1, all axes, empty list); "
-             "non-trivial = distinct request removing >= 1 axis of a >= 2-axis spectrum, or an error case",
+             "non-trivial = distinct request removing >= 1 axis of a >= 2-axis spectrum, or an error case 60 (thorough 600) `hist.scs` call histories; size sweeps (one axis of every length up to 130, thorough 400, next to short ones; 6-8 short axes).",
         exhaustive=True,
         assumptions=["integer data below 2^53: binary64 sums are exact and compared exactly"],
     ),
@@ -62,7 +62,7 @@ PROPS = {
         rule="Spectrum::project in-process on every admissible target (<= 40 sampled per shape in quick) of all shapes 1-2 axes x 1..7, 3 axes x 1..3, 4 axes x 1..2 "
              "(thorough: 1-3 x 1..7, 4 x 1..3), odd-integer data and unit vectors (single operator rows), two-step vs direct, rejected targets (larger, zero, other dimensionality); "
              "hypergeometric_pmf coefficients at N in {1,2,3,169..172,500,1029,1030,2000,5000} x 120 (thorough 400) (K,n,k) probes around the mode; "
-             "compared with exact rationals within 2^-30 relative; non-trivial = distinct request with a non-identity target, a positive coefficient or an error Plus whole rows of the operator through Spectrum::project at 400 / 1100 / 1200 / 2000 (thorough up to 4000) chromosomes with the source entry mid-range and targets near half the source (c03.row), incl. one two-axis case. Every source size 1..260 (thorough 600) once: the rows of the first, middle and last source entry projected to two chromosomes.",
+             "compared with exact rationals within 2^-30 relative; non-trivial = distinct request with a non-identity target, a positive coefficient or an error Plus whole rows of the operator through Spectrum::project at 400 / 1100 / 1200 / 2000 (thorough up to 4000) chromosomes with the source entry mid-range and targets near half the source (c03.row), incl. one two-axis case. Every source size 1..260 (thorough 600) once: the rows of the first, middle and last source entry projected to two chromosomes. 60 (thorough 600) call histories on one spectrum object (`hist.scs`: queries, in-place edits, normalisation, clones, replacement by its own fold / marginal / projection).",
         exhaustive=True,
         assumptions=["binary64 evaluation (ln_gamma, exp, rounding of binomials) is compared within 2^-30*(|q|+scale), not proved; 'finite for thousands of chromosomes' is decided by the coefficient probes only"],
         correspondence_only=["finite results at sizes of thousands of chromosomes (f64 range)",
@@ -127,7 +127,7 @@ PROPS = {
         nontrivial=r"^(c12-same|ct-cli)",
         rule="12 (thorough 60) call sets (up to 3000 records, with/without projection and sample lists, one ending in a ploidy error) each run as {vcf, vcf.gz, bcf, raw bcf} x {path, stdin} x threads {1,3,16} "
              "(thorough 1,2,3,4,8,16) x BGZF layouts (one line per block, random cuts incl. mid-line, interleaved empty blocks; thorough also single block / 9 even cuts) x 2 (thorough 3) repeated executions: "
-             "all stdout bytes and exit classes must be identical, and equal to the model's output; non-trivial = every distinct call set (each stands for 64-200 executions) Each call set is additionally read from a named pipe given as the input path (first write of 1 / 2 / 20 bytes). Byte level (`ct.create`): 40 container files (flate2-compressed BGZF, noodles-written BCF) are decoded by the model's own inflate / BGZF / VCF / BCF decoders, and 36 container files *written by the model's encoders* (stored-block BGZF with block payloads of 1 ... 65280 bytes, plain VCF, BCF) are read by the binary: outcome = createCli of the decoded call set in both directions. A quarter of the call sets carry 126 / 197 / 266 INFO definitions ahead of FORMAT/GT (16-bit FORMAT keys in BCF).",
+             "all stdout bytes and exit classes must be identical, and equal to the model's output; non-trivial = every distinct call set (each stands for 64-200 executions) Each call set is additionally read from a named pipe given as the input path (first write of 1 / 2 / 20 bytes). Byte level (`ct.create`): 40 container files (flate2-compressed BGZF, noodles-written BCF) are decoded by the model's own inflate / BGZF / VCF / BCF decoders, and 36 container files *written by the model's encoders* (stored-block BGZF with block payloads of 1 ... 65280 bytes, plain VCF, BCF) are read by the binary: outcome = createCli of the decoded call set in both directions. A quarter of the call sets carry 126 / 197 / 266 INFO definitions ahead of FORMAT/GT (16-bit FORMAT keys in BCF). Every seventh record carries a reference allele of 16 / 130 / 300 bases (BCF typed strings with inline, 8-bit and 16-bit lengths).",
         exhaustive=False, assumptions=["in-process cases drive the real site::Reader through an in-memory genotype::Reader; CLI cases run the real binary on generated VCF text / BCF (noodles writer, or a hand-written BCF2.2 encoder for mixed ploidy) / BGZF", "noodles (VCF/BCF/BGZF parsing), clap and env_logger are exercised, not modelled"] + ["thread scheduling, OS pipes and hash seeds are runtime behaviour: explored by repetition, not proved"],
     ),
 }
@@ -159,7 +159,7 @@ PROPS.update({
              "and a third (thorough all) loaded by real numpy (python3-vt) and compared bit for bit; reader: 186 (thorough ~600) files written by numpy.lib.format.write_array for dtype(10) x byte order(<,>) x version(1.0,2.0,3.0) "
              "with boundary values (min, max, +-1, 2^53+-1.., 2^64-1025..) where model, implementation and numpy's astype('<f8') must agree bit for bit, plus numpy files that must be rejected (Fortran order, bool, complex, f2, 0-d, str, structured); "
              "synthesized headers (each accepted one also read through a BufRead whose chunks are not aligned to the item size): type(10) x byte-order char(<,>,|) x version(1,2,3) x spelling (quotes, spacing, key order, trailing commas; a third outside the accepted family), unsupported descr strings, bad versions, count mismatches, malformed tuples; "
-             "non-trivial = every distinct request Plus written spectra of 8192 / 8193 / 9261 / 10201 / 12297 / 16385 values (numpy loads them too).",
+             "non-trivial = every distinct request Plus written spectra of 8192 / 8193 / 9261 / 10201 / 12297 / 16385 values (numpy loads them too). Every value count 1..70 and every power of two up to 2^14 with its neighbours is written once.",
         exhaustive=True, assumptions=IO_ASSUME + ["numpy 2.x from the tooling venv is the oracle the property names; if python3-vt is missing those cases are skipped and the evidence shows no numpy-* tags"],
     ),
     "C16": dict(
@@ -199,7 +199,7 @@ PROPS.update({
         rule="estimator level: 56 (thorough 416) 1-D count spectra with n in {3..7, 10, 25, 63, 64, 100, 169..172, 200, 400} + log-uniform up to 500 (thorough 900) chromosomes, a third with many empty classes: pi, theta, Tajima's D, Fu and Li's D, S, sum; "
              "all 14 statistics (wrong dimensionality -> the specific error) on 160 (thorough 1500) spectra with 1-4 axes of unequal length incl. 3x3, a quarter also through `sfs stat` at precision 6/12/15; 60 (thorough 400) invocations over the option surface of `sfs stat` (header row, delimiter, one precision for all / one per statistic / a wrong number, an inapplicable statistic in any position) against the `statCli` model; "
              "genotype level: 150 (thorough 1500) call sets with 1-4 populations of unequal size (and two-individual sets for KING/R0/R1), 1-60 (thorough 200) records with missing / multiallelic genotypes and unselected columns -> real site reader -> statistics, "
-             "compared with the definitions evaluated directly on the genotypes (Spec.g*, published estimators on the class counts); a fifth through `sfs create | sfs stat --precision 12`; non-trivial = distinct request on a spectrum with more than 4 cells or any genotype-level / CLI case Multiallelic genotypes are spelled with one- and two-digit allele indices (0/2, 0/10, 2/1, 1|12).",
+             "compared with the definitions evaluated directly on the genotypes (Spec.g*, published estimators on the class counts); a fifth through `sfs create | sfs stat --precision 12`; non-trivial = distinct request on a spectrum with more than 4 cells or any genotype-level / CLI case Multiallelic genotypes are spelled with one- and two-digit allele indices (0/2, 0/10, 2/1, 1|12). Every n from 3 to 260 (thorough 700) once at estimator level (the two D statistics on every fifth).",
         exhaustive=False, assumptions=ST_ASSUME,
         correspondence_only=["accuracy of the binary64 evaluation (2^-30 relative bound is tested, not derived)"],
     ),
@@ -211,7 +211,7 @@ PROPS.update({
         nontrivial=r"^strel-",
         rule="200 (thorough 3000) count spectra with 1-4 axes of unequal length (and 3x3): for every applicable statistic the value on x and on T(x) for T in {fold with fill zero (library and `sfs fold --fill zero | sfs stat`), "
              "replace the two monomorphic entries by random values, multiply by a constant in {2, 0.5, 3, 0.1, 1000, 7.25, 0.001}, swap the two populations}, and f3 / f4 against the f2 combination of the marginals computed with the real marginalize; "
-             "both values compared with the model, and the relation itself re-checked on the model values in exact arithmetic (a relation failing there is reported as a model-level violation); non-trivial = every distinct request Plus `sfs stat` invocations computing all applicable statistics together in random order (and count-based next to frequency-based pairs) on x, c*x and x with other monomorphic entries. Plus `monoip`: total and statistic queried, the two monomorphic cells overwritten in place through IndexMut on the same object, statistic queried again (every statistic).",
+             "both values compared with the model, and the relation itself re-checked on the model values in exact arithmetic (a relation failing there is reported as a model-level violation); non-trivial = every distinct request Plus `sfs stat` invocations computing all applicable statistics together in random order (and count-based next to frequency-based pairs) on x, c*x and x with other monomorphic entries. Plus `monoip`: total and statistic queried, the two monomorphic cells overwritten in place through IndexMut on the same object, statistic queried again (every statistic). 150 (thorough 1500) `hist.scs` call histories on one spectrum object.",
         exhaustive=False, assumptions=ST_ASSUME + ["swapping, scaling and replacing entries are done by the harness on the data (there is no sfs operation for them); folding and marginalisation use the real code"],
     ),
 })
